@@ -91,9 +91,11 @@ func (l *VerifLimiter) Startup() {
 	withAccessTime, err := l.s.readStorableAccessTimes()
 	if err == nil {
 		for n, i := range withAccessTime {
-			if _, onDisk := l.s.withoutAccessTime[n]; !onDisk {
+			onDisk, found := l.s.withoutAccessTime[n]
+			if !found {
 				continue
 			}
+			i.sizeKilobytes = onDisk.sizeKilobytes
 			l.s.withAccessTime[n] = i
 			delete(l.s.withoutAccessTime, n)
 		}
@@ -105,6 +107,7 @@ func (l *VerifLimiter) Add(name string, size int64, nowUnix int64) {
 	ai := accessedItem{accessTime: accessTime(nowUnix), sizeKilobytes: uint32(size / 1024)}
 	l.s.withAccessTime[itemName(name)] = ai
 	l.s.sizeBytes += int64(ai.sizeKilobytes * 1024)
+	l.s.storableAccessedItems[itemName(name)] = storableAccessedItem{nowUnix, uint32(size / 1024)}
 }
 
 // Access is what setAccessTime + case opAccessTime do, with the clock reading given.
